@@ -86,61 +86,65 @@ func ruleP15Total(p *Prog, r *Report) {
 				continue
 			}
 			ord := 0
-			eachInstr(f, func(in ssa.Instruction) {
-				switch x := in.(type) {
-				case *ssa.Panic:
-					n++
-					key := fmt.Sprintf("%s.%s:panic", kind, mname)
-					// discharged when the panic is unreachable for every valid date:
-					// (a) default arm of a switch over Quarter() covering 1..4
-					if switchCovers(x.Block(), "Quarter", 1, 4) {
-						r.ok(rule, key, p.instrPos(x), "unreachable: the switch covers every value of Quarter() (1..4)")
-						return
-					}
-					r.bad(rule, key, p.instrPos(x), "%s.%s panics for some valid date (explicit panic not excluded by a guard on the date)", kind, mname)
-				case ssa.CallInstruction:
-					name, recv, args, _ := methodCallOf(x)
-					if name == "PlusDays" && len(args) == 1 {
+			for _, vi := range virtualInstrs(f) {
+				vi := vi
+				vi.run(func() {
+					in := vi.in
+					switch x := in.(type) {
+					case *ssa.Panic:
 						n++
-						ord++
-						key := fmt.Sprintf("%s.%s:PlusDays#%d", kind, mname, ord)
-						k, isK := constInt(args[0])
-						if isK && k == 0 {
-							r.ok(rule, key, p.instrPos(x), "PlusDays(0) is total")
+						key := fmt.Sprintf("%s.%s:panic", kind, mname)
+						// discharged when the panic is unreachable for every valid date:
+						// (a) default arm of a switch over Quarter() covering 1..4
+						if switchCovers(x.Block(), "Quarter", 1, 4) {
+							r.ok(rule, key, p.instrPos(x), "unreachable: the switch covers every value of Quarter() (1..4)")
 							return
 						}
-						if isK && calendarEndGuarded(f, x, recv, k) {
-							r.ok(rule, key, p.instrPos(x), "the step is excluded for the last/first representable date by an explicit guard")
+						r.bad(rule, key, p.instrPos(x), "%s.%s panics for some valid date (explicit panic not excluded by a guard on the date)", kind, mname)
+					case ssa.CallInstruction:
+						name, recv, args, _ := methodCallOf(x)
+						if name == "PlusDays" && len(args) == 1 {
+							n++
+							ord++
+							key := fmt.Sprintf("%s.%s:PlusDays#%d", kind, mname, ord)
+							k, isK := constInt(args[0])
+							if isK && k == 0 {
+								r.ok(rule, key, p.instrPos(x), "PlusDays(0) is total")
+								return
+							}
+							if isK && calendarEndGuarded(f, x, recv, k) {
+								r.ok(rule, key, p.instrPos(x), "the step is excluded for the last/first representable date by an explicit guard")
+								return
+							}
+							dir := "forward"
+							edge := "9999-12-31"
+							if isK && k < 0 {
+								dir, edge = "backward", "0000-01-01"
+							}
+							r.bad(rule, key, p.instrPos(x), "%s.%s steps %s (PlusDays(%v)) from a date that may lie at the end of the representable range (%s): PlusDays panics there", kind, mname, dir, describeConst(args[0]), edge)
 							return
 						}
-						dir := "forward"
-						edge := "9999-12-31"
-						if isK && k < 0 {
-							dir, edge = "backward", "0000-01-01"
+						if g := staticCallee(x); g != nil && fnBase(g) == "NewDate" && pkgPathOfFn(g) == modPath+"/klog" {
+							n++
+							ord++
+							key := fmt.Sprintf("%s.%s:NewDate#%d", kind, mname, ord)
+							cl, why := p.classifyErr(x)
+							if cl == errChecked {
+								r.ok(rule, key, p.instrPos(x), "error of NewDate is handled")
+								return
+							}
+							// discarded error: arguments must be valid in every year
+							a := x.Common().Args
+							yOK := accessorOfDate(a[0], "Year")
+							mVal, mK := constInt(a[1])
+							dVal, dK := constInt(a[2])
+							mAcc := accessorOfDate(a[1], "Month")
+							ok := yOK && dK && dVal >= 1 && ((mK && mVal >= 1 && mVal <= 12 && dVal <= daysInMonthMin[mVal]) || (mAcc && dVal <= 28))
+							r.check(ok, rule, key, p.instrPos(x), "NewDate(Year(), month, day) with a (month, day) pair that exists in every year", "error of NewDate discarded ("+why+") although its arguments are not valid in every year")
 						}
-						r.bad(rule, key, p.instrPos(x), "%s.%s steps %s (PlusDays(%v)) from a date that may lie at the end of the representable range (%s): PlusDays panics there", kind, mname, dir, describeConst(args[0]), edge)
-						return
 					}
-					if g := staticCallee(x); g != nil && fnBase(g) == "NewDate" && pkgPathOfFn(g) == modPath+"/klog" {
-						n++
-						ord++
-						key := fmt.Sprintf("%s.%s:NewDate#%d", kind, mname, ord)
-						cl, why := p.classifyErr(x)
-						if cl == errChecked {
-							r.ok(rule, key, p.instrPos(x), "error of NewDate is handled")
-							return
-						}
-						// discarded error: arguments must be valid in every year
-						a := x.Common().Args
-						yOK := accessorOfDate(a[0], "Year")
-						mVal, mK := constInt(a[1])
-						dVal, dK := constInt(a[2])
-						mAcc := accessorOfDate(a[1], "Month")
-						ok := yOK && dK && dVal >= 1 && ((mK && mVal >= 1 && mVal <= 12 && dVal <= daysInMonthMin[mVal]) || (mAcc && dVal <= 28))
-						r.check(ok, rule, key, p.instrPos(x), "NewDate(Year(), month, day) with a (month, day) pair that exists in every year", "error of NewDate discarded ("+why+") although its arguments are not valid in every year")
-					}
-				}
-			})
+				})
+			}
 		}
 	}
 	if n < 15 {
